@@ -71,6 +71,15 @@ impl Ctx {
         }
     }
 }
+/// wait until `srv` has registered computation `id` (its schedule request has been accepted by the route): an unrecorded `/run` probe is answered 404 before
+/// that and 400 (`InvalidState`, state kept) afterwards. A fixed delay is not enough on a loaded machine.
+async fn wait_registered(ctx: &Ctx, srv: usize, id: Uuid) -> bool {
+    let t0 = Instant::now();
+    while t0.elapsed() < Duration::from_secs(15) {
+        if let Ok(r) = ctx.client.post(ctx.parts[srv].join("run").unwrap()).json(&RunRequest { computation_id: id }).send().await { if r.status().as_u16() != 404 { return true; } }
+        tokio::time::sleep(Duration::from_millis(10)).await; }
+    false
+}
 /// which statuses the property allows for a stray request that reaches a computation under way
 fn allowed(s: Stray) -> &'static [u16] { match s { Stray::MsgOob => &[500], Stray::MsgSelf => &[200, 500], _ => &[400] } }
 
@@ -108,20 +117,20 @@ async fn main() {
             let live = |f: &Fake| { let runs = f.runs.lock().unwrap(); let ended = f.ended.lock().unwrap(); runs.iter().filter(|i| !ended.contains(i)).cloned().collect::<Vec<_>>() };
             let wait_live = |want: usize, ms: u64| { let fake = fake.clone(); async move { let t0 = Instant::now(); while t0.elapsed() < Duration::from_millis(ms) { if live(&fake).len() >= want { break; } tokio::time::sleep(Duration::from_millis(10)).await; } live(&fake).len() } };
             // all k are validated; exactly `conc` of them may be running now, and no more however long we wait
-            let got = wait_live(conc, 3000).await; if got < conc { bad.push(format!("only {got} of {conc} permitted computations were started")); }
+            let got = wait_live(conc, 15000).await; if got < conc { bad.push(format!("only {got} of {conc} permitted computations were started")); }
             tokio::time::sleep(Duration::from_millis(400)).await;
             let mut log = vec![format!("{k} computations led by one server with concurrency {conc}: {} running", live(&fake).len())];
             // end them one by one: each end must let exactly one waiting computation start
             for step in 0..k { let l = live(&fake); if l.is_empty() { bad.push(format!("after {step} ended computations nothing is running although {} have not run yet", k - step)); break; }
                 fake.ended.lock().unwrap().push(l[0]); let remaining = k - step - 1; let want = remaining.min(conc);
-                let t0 = Instant::now(); while t0.elapsed() < Duration::from_secs(5) { if live(&fake).len() >= want && fake.runs.lock().unwrap().len() >= (step + 1 + want).min(k) { break; } tokio::time::sleep(Duration::from_millis(10)).await; }
+                let t0 = Instant::now(); while t0.elapsed() < Duration::from_secs(15) { if live(&fake).len() >= want && fake.runs.lock().unwrap().len() >= (step + 1 + want).min(k) { break; } tokio::time::sleep(Duration::from_millis(10)).await; }
                 tokio::time::sleep(Duration::from_millis(120)).await; log.push(format!("ended one: {} running, {} started so far", live(&fake).len(), fake.runs.lock().unwrap().len()));
                 if live(&fake).len() < want { bad.push(format!("after computation {step} ended only {} are running, {want} should be (a permit did not come back)", live(&fake).len())); break; } }
             let max_live = *fake.max_live.lock().unwrap(); if max_live > conc { bad.push(format!("{max_live} computations had received /run and not ended at the same time, concurrency is {conc}")); }
             // the whole budget is back: `conc` further computations all get their /run
             let before = fake.runs.lock().unwrap().len();
             { let st = client.post(leader_url.join("schedule").unwrap()).json(&mk(k)).send().await.map(|r| r.status().as_u16()).unwrap_or(0); if st != 200 { bad.push(format!("final schedule call answered {st}")); } }
-            let t0 = Instant::now(); while t0.elapsed() < Duration::from_secs(5) && fake.runs.lock().unwrap().len() <= before { tokio::time::sleep(Duration::from_millis(10)).await; }
+            let t0 = Instant::now(); while t0.elapsed() < Duration::from_secs(15) && fake.runs.lock().unwrap().len() <= before { tokio::time::sleep(Duration::from_millis(10)).await; }
             if bad.is_empty() && fake.runs.lock().unwrap().len() <= before { bad.push("after all computations ended a further one is never run: the budget is not available again".into()); }
             let rest = live(&fake); fake.ended.lock().unwrap().extend(rest); tokio::time::sleep(Duration::from_millis(150)).await; srv_task.abort();
             if with_dest { let errs = outs.lock().unwrap().iter().filter(|(i, _, v)| ids.contains(i) && v.get("type").and_then(|t| t.as_str()) == Some("error")).count(); if errs < k && bad.is_empty() { bad.push(format!("{errs} error notifications for {k} failed computations with a destination")); } }
@@ -144,7 +153,7 @@ async fn main() {
             let sched = |p: usize| { let c = ctx.clone(); let pol = policy(&ctx.parts, p, leader, &ctx.out, id, prog); tokio::spawn(async move { c.post_json(p, "schedule", id, &pol).await }) };
             let mut bad: Vec<String> = vec![]; let mut tasks = vec![];
             match when {
-                "follower-waits" => { tasks.push(sched(victim)); tokio::time::sleep(Duration::from_millis(60)).await; }
+                "follower-waits" => { tasks.push(sched(victim)); if !wait_registered(&ctx, victim, id).await { bad.push("the follower never registered its computation".into()); } }
                 "under-way" => { let mut lt = None; for p in 0..n { let t = sched(p); if p == leader { lt = Some(t); } else { tasks.push(t); } }
                     let _ = tokio::time::timeout(Duration::from_secs(25), lt.unwrap()).await; tokio::time::sleep(Duration::from_millis(r.below(40))).await; }
                 _ => { for p in 0..n { tasks.push(sched(p)); } let t0 = Instant::now(); while outs.lock().unwrap().iter().filter(|(i, _, _)| *i == id).count() < n && t0.elapsed() < Duration::from_secs(20) { tokio::time::sleep(Duration::from_millis(10)).await; } tokio::time::sleep(Duration::from_millis(100)).await; }
@@ -161,8 +170,8 @@ async fn main() {
             if when != "after-the-result" && returned && at_return.len() == 1 { let v = &at_return[0]; let is_cancel = v.get("type").and_then(|t| t.as_str()) == Some("error") && v.to_string().to_lowercase().contains("cancel"); let is_result = *v == expected(n, prog);
                 if !is_cancel && !is_result { bad.push(format!("the one notification is neither `cancelled` nor the real result: {v}")); } }
             // the cancelled computation is gone from the victim's registry and the server still answers
-            let mut gone = false; let t1 = Instant::now(); while !gone && t1.elapsed() < Duration::from_secs(3) { if let Ok(x) = ctx.client.post(parts[victim].join("run").unwrap()).json(&RunRequest { computation_id: id }).send().await { gone = x.status().as_u16() == 404; } tokio::time::sleep(Duration::from_millis(15)).await; }
-            if returned && !gone { bad.push("the cancelled computation is still registered three seconds later".into()); }
+            let mut gone = false; let t1 = Instant::now(); while !gone && t1.elapsed() < Duration::from_secs(10) { if let Ok(x) = ctx.client.post(parts[victim].join("run").unwrap()).json(&RunRequest { computation_id: id }).send().await { gone = x.status().as_u16() == 404; } tokio::time::sleep(Duration::from_millis(15)).await; }
+            if returned && !gone { bad.push("the cancelled computation is still registered ten seconds later".into()); }
             let h = ctx.client.get(parts[victim].join("health").unwrap()).send().await; if !matches!(h, Ok(ref x) if x.status().as_u16() == 200) { bad.push("server is not healthy after cancel".into()); }
             for t in tasks { t.abort(); }
             // model: schedule registered the computation, the end of its state machine (cancel) unregisters it
@@ -199,7 +208,7 @@ async fn main() {
             }
             'A' => {
                 // the follower is scheduled and waits for the leader (AwaitingValidation); stray requests reach it; then the leader is scheduled
-                tasks.push((follower, sched(follower))); tokio::time::sleep(Duration::from_millis(60)).await;
+                tasks.push((follower, sched(follower))); if !wait_registered(&ctx, follower, id).await { bad.push("the follower never registered its computation".into()); }
                 let k = (case / 3) % strays_a.len(); for s in [strays_a[k], strays_a[(k + 1 + r.below(5) as usize) % strays_a.len()]] {
                     let (st, ty) = ctx.stray(s, follower, leader, id, prog).await; stray_log.push(format!("{s:?}@{follower} while it waits for the leader -> {st} {ty}")); *dist.entry(format!("stray:{s:?}/awaiting-validation")).or_default() += 1;
                     if !allowed(s).contains(&st) { bad.push(format!("{s:?} at the waiting follower answered {st} {ty}, want one of {:?}", allowed(s))); } }
@@ -213,7 +222,8 @@ async fn main() {
                 for s in [strays_b[k], strays_b[(k + 1 + r.below(5) as usize) % strays_b.len()], strays_b[r.below(6) as usize]] {
                     let done_before = outs.lock().unwrap().iter().filter(|(i, _, _)| *i == id).count() > 0;
                     let (st, ty) = ctx.stray(s, victim, leader, id, prog).await; stray_log.push(format!("{s:?}@{victim} during the run -> {st} {ty}")); *dist.entry(format!("stray:{s:?}/under-way")).or_default() += 1;
-                    if !done_before && !allowed(s).contains(&st) { bad.push(format!("{s:?} at party {victim} during the run answered {st} {ty}, want one of {:?}", allowed(s))); } }
+                    let done_after = outs.lock().unwrap().iter().filter(|(i, _, _)| *i == id).count() > 0;
+                    if !done_before && !done_after && !allowed(s).contains(&st) { bad.push(format!("{s:?} at party {victim} during the run answered {st} {ty}, want one of {:?}", allowed(s))); } }
             }
         }
         for (p, t) in tasks { match tokio::time::timeout(Duration::from_secs(30), t).await { Ok(Ok((st, ty))) => if st != 200 { bad.push(format!("schedule call of party {p} answered {st} {ty}")); }, _ => bad.push(format!("schedule call of party {p} did not return")) } }
@@ -225,9 +235,9 @@ async fn main() {
             if got != vec![want.clone()] { bad.push(format!("destination of party {p} got {}, want one {want}", serde_json::to_string(&got).unwrap().chars().take(300).collect::<String>())); } }
         // the finished computation disappears from every registry (the handle is removed once the state machine has finished)
         let mut gone = vec![false; n]; let t1 = Instant::now();
-        while bad.is_empty() && gone.iter().any(|g| !g) && t1.elapsed() < Duration::from_secs(3) { for p in 0..n { if !gone[p] {
+        while bad.is_empty() && gone.iter().any(|g| !g) && t1.elapsed() < Duration::from_secs(10) { for p in 0..n { if !gone[p] {
             if let Ok(r) = ctx.client.post(ctx.parts[p].join("run").unwrap()).json(&RunRequest { computation_id: id }).send().await { if r.status().as_u16() == 404 { gone[p] = true; } } } } tokio::time::sleep(Duration::from_millis(15)).await; }
-        if bad.is_empty() && gone.iter().any(|g| !g) { bad.push(format!("three seconds after the results the computation is still registered at parties {:?}", (0..n).filter(|p| !gone[*p]).collect::<Vec<_>>())); }
+        if bad.is_empty() && gone.iter().any(|g| !g) { bad.push(format!("ten seconds after the results the computation is still registered at parties {:?}", (0..n).filter(|p| !gone[*p]).collect::<Vec<_>>())); }
         for p in 0..n { let h = ctx.client.get(ctx.parts[p].join("health").unwrap()).send().await; if !matches!(h, Ok(ref x) if x.status().as_u16() == 200) { bad.push(format!("server {p} is not healthy afterwards")); } }
         // replay every recorded response through the Lean model of api.rs (per-server registry)
         for o in ctx.obs.lock().unwrap().iter() { if o.id != id || o.status == 0 { continue; }
